@@ -3,6 +3,7 @@ package checks
 import (
 	"bytes"
 	"fmt"
+	"verif/h/refsrv"
 
 	tq "github.com/facebookincubator/tacquito"
 	"verif/h/gen"
@@ -349,6 +350,41 @@ func runC03(b *mon.B) {
 		}
 		b.Count("client_exchanges_conforming", 1)
 		b.Count("bytes_xored_checked", reqLen+repLen)
+	}
+	c03Reference(b, r.Fork(0xC03A), &caseNo)
+}
+
+// c03Reference: on the reference server the pad is keyed by the secret as it stands in the
+// configuration - whatever characters it contains.
+func c03Reference(b *mon.B, r *gen.R, caseNo *int) {
+	for k := 0; k < b.N(3, 30); k++ {
+		*caseNo++
+		if !b.Want(*caseNo) {
+			continue
+		}
+		sc := richConfig(r, 1)
+		keyText := "k" + r.Alnum(4) + r.PickS("$x"+r.Alnum(2), "${HOME}", "$$", "%s%d", " with spaces ", "\\n", "#'\"", "~user", "é-ü")
+		sc.Scopes[0].Key = keyText
+		sc.Cfg.Secrets[0].Secret.Key = keyText
+		ref, err := refsrv.Start(sc.Cfg, refsrv.Options{Keys: sc.Keys, ViaYAML: k%2 == 0, ViaJSON: k%2 == 1})
+		if err != nil {
+			b.Inconclusive("reference configuration did not load: %v", err)
+			continue
+		}
+		b.Eval(1)
+		b.Class("reference-server/secret-with-special-characters/%d", k%9)
+		rc := newRefConn(ref, k+1, []byte(keyText))
+		res := rc.send(rfc8907.Header{Major: 0xc, Type: 2, Seq: 1, Session: r.U32()}, bAuthorRequest(6, 1, 1, 1, "alice", "p", "r", "service=shell", "cmd=show", "cmd-arg=version"), true)
+		switch {
+		case res.Err != nil:
+			b.Inconclusive("reference pass: %v", res.Err)
+		case len(res.Replies) != 1 || res.Replies[0].Value == nil || len(res.Invs) != 1:
+			b.Violate(*caseNo, "C03/reference-server/pad-not-keyed-by-the-configured-secret", fmt.Sprintf("scope secret %q: a request obfuscated with exactly that secret reached %d handlers and the %d replies do not de-obfuscate to a well-formed reply under it", keyText, len(res.Invs), len(res.Replies)),
+				map[string]interface{}{"configured_secret": keyText})
+		default:
+			b.Count("reference_server_exchanges_under_configured_secret", 1)
+		}
+		ref.Close()
 	}
 }
 
